@@ -168,12 +168,25 @@ func (e *Engine) Apply(ctx boltz.MutateContext, op *Op) error {
 	st := e.Sc.St(op.Store)
 	tx := ctx.Tx()
 	switch op.Kind {
-	case "create":
-		return st.Store.Create(ctx, e.ent(op.Store, *op))
-	case "update":
-		return st.Store.Update(ctx, e.ent(op.Store, *op), nil)
-	case "patch":
-		return st.Store.Update(ctx, e.ent(op.Store, *op), checker(st, op.Fields))
+	case "create", "update", "patch":
+		// the entity object is the caller's: once the call is back the caller uses it for something else (here: it
+		// scribbles over it, before the transaction commits) - what was stored and what listeners are told is what
+		// the object held when it was handed over
+		ent := e.ent(op.Store, *op)
+		var err error
+		switch op.Kind {
+		case "create":
+			err = st.Store.Create(ctx, ent)
+		case "update":
+			err = st.Store.Update(ctx, ent, nil)
+		default:
+			err = st.Store.Update(ctx, ent, checker(st, op.Fields))
+		}
+		for k := range ent.V {
+			ent.V[k] = nil
+		}
+		ent.V["name"], ent.Id = "scribbled-over-by-the-caller", "scribbled-id"
+		return err
 	case "delete":
 		return st.Store.DeleteById(ctx, op.Id)
 	case "deletewhere":
